@@ -9,8 +9,9 @@ Model of the signature-acceptance logic of the validator (crates/net/src/dnssec/
   signature check, which is an **oracle parameter** `sigValid key tbs signature`;
 * `RRSIG::authenticated_ttl` (crates/proto/src/dnssec/rdata/rrsig.rs);
 * `DNSKEY::calculate_key_tag`, `zone_key`, `revoke` (dnssec/rdata/dnskey.rs);
-* `verify_rrsig_with_keys` — NSEC/NSEC3 wildcard-labels rejection, key-tag collision cap, the loop
-  over keys with the all-insecure inheritance;
+* `verify_rrsig_with_keys` — NSEC/NSEC3 wildcard-labels rejection, only the signer's own DNSKEYs
+  (207ce2a), key-tag collision cap, the loop over keys with the all-insecure inheritance; the
+  signer-must-be-the-owner's-zone test of `verify_default_rrset` (207ce2a) is in `freshVerdict`;
 * `ValidationCache::{get,insert}` + the part of `verify_rrsets` that consults it, as a state machine
   over an explicit monotonic clock `inst` (the code's `Instant::now()`, in seconds) next to the
   validator's wall clock `now` (`Time::current_time() as u32`).  `validate` / `runHistory` are the
@@ -105,6 +106,7 @@ def rrsigValidityCheck (rrsig : Rrsig) (keyName : Name) (keyType : Nat) (records
   if records.any (fun r => r.cls != 1) then .wrongRrsig
   else if !(Name.eq rrsig.owner keyName && rrsig.input.typeCovered == keyType
       && decide (keyName.numLabels ≥ rrsig.input.numLabels)) then .wrongRrsig
+  else if !(serialLe rrsig.input.inception rrsig.input.expiration) then .expiredRrsig
   else if !(serialLe now rrsig.input.expiration && serialGe now rrsig.input.inception) then .expiredRrsig
   else if !(Name.eq rrsig.input.signer dnskey.owner && rrsig.input.algorithm == dnskey.algorithm
       && rrsig.input.keyTag == keyTag dnskey.rdata && dnskey.zoneKey) then .wrongDnskey
@@ -176,7 +178,10 @@ def verifyRrsigWithKeys (sigValid : SigOracle) (dnskeys : List (Dnskey × Proof)
     (keyName : Name) (keyType : Nat) (records : List Record) (now : Nat) :
     Option (Proof × Option Nat) :=
   if (keyType == 47 || keyType == 50) && keyName.numLabels != rrsig.input.numLabels then none
-  else keysLoop sigValid rrsig keyName keyType records now none (filterTagCollisions [] dnskeys)
+  else
+    -- since /repo 207ce2a: only DNSKEYs owned by the signer are considered at all
+    let own := dnskeys.filter (fun kp => Name.eq kp.1.owner rrsig.input.signer)
+    keysLoop sigValid rrsig keyName keyType records now none (filterTagCollisions [] own)
 
 /-! ### the validation cache (`ValidationCache`, `verify_rrsets`) -/
 
@@ -248,9 +253,13 @@ structure Request where
 /-- `verify_default_rrset` for one RRSIG whose DNSKEY lookup succeeded:
 `Some(..)` → `Ok(RrsetProof)`, `None` → `Err(RrsigsUnverified)` with proof Bogus. -/
 def freshVerdict (sigValid : SigOracle) (r : Request) : Verdict :=
-  match verifyRrsigWithKeys sigValid r.dnskeys r.rrsig r.keyName r.keyType r.records r.now with
-  | some (p, ttl) => { isOk := true, proof := p, adjustedTtl := ttl }
-  | none => { isOk := false, proof := .bogus, adjustedTtl := none }
+  -- since /repo 207ce2a: an RRSIG whose signer is not the owner or an ancestor of it is skipped
+  -- without a DNSKEY lookup (→ `Err(RrsigsNotPresent)`, Bogus)
+  if !(r.rrsig.input.signer.zoneOf r.keyName) then { isOk := false, proof := .bogus, adjustedTtl := none }
+  else
+    match verifyRrsigWithKeys sigValid r.dnskeys r.rrsig r.keyName r.keyType r.records r.now with
+    | some (p, ttl) => { isOk := true, proof := p, adjustedTtl := ttl }
+    | none => { isOk := false, proof := .bogus, adjustedTtl := none }
 
 /-- the `signature_span` recorded with a Secure verdict (`rrsig_index` is always `Some` for an `Ok`
 Secure result of `verify_default_rrset`): validated at `now`, the signature remains valid
